@@ -64,6 +64,8 @@ func runC05(c *an.Ctx) {
 	c.Min("R05.4", 10)
 	r058(c, "R05.8")
 	c.Min("R05.8", 3)
+	r0117as(c, "R05.14") // what a masked write stores is the merged message, not the request (shared with R01.17)
+	c.Min("R05.14", 2)
 	r0513(c, "R05.13")
 	c.Min("R05.13", 2)
 	r068(c, "R05.12") // an empty writable / update mask is not "no mask" (shared with R06.8)
